@@ -253,6 +253,45 @@ func (r *Renderer) base(v ssa.Value, use ssa.Instruction, depth int) string {
 	return r.render(v, depth+1)
 }
 
+// arrayLiteralElems returns the values stored into the constant-index slots of
+// a local array that is only used as a literal (variadic argument packaging,
+// composite array literals).
+func arrayLiteralElems(a *ssa.Alloc) ([]ssa.Value, bool) {
+	arr, ok := a.Type().(*types.Pointer).Elem().Underlying().(*types.Array)
+	if !ok || arr.Len() > 64 || a.Referrers() == nil {
+		return nil, false
+	}
+	els := make([]ssa.Value, arr.Len())
+	for _, ref := range *a.Referrers() {
+		switch x := ref.(type) {
+		case *ssa.IndexAddr:
+			c, ok := x.Index.(*ssa.Const)
+			if !ok || c.Value == nil {
+				return nil, false
+			}
+			i, ok := constInt64(c.Value)
+			if !ok || i < 0 || i >= arr.Len() || x.Referrers() == nil {
+				return nil, false
+			}
+			for _, r2 := range *x.Referrers() {
+				st, ok := r2.(*ssa.Store)
+				if !ok || st.Addr != x {
+					return nil, false
+				}
+				if els[i] != nil {
+					return nil, false
+				}
+				els[i] = st.Val
+			}
+		case *ssa.Slice:
+		case *ssa.DebugRef:
+		default:
+			return nil, false
+		}
+	}
+	return els, true
+}
+
 // closureStores reports whether some closure capturing alloc a stores to it.
 func closureStores(a *ssa.Alloc) bool {
 	refs := a.Referrers()
@@ -425,7 +464,20 @@ func (r *Renderer) render1(v ssa.Value, depth int) string {
 			hi = r.render(x.High, depth+1)
 		}
 		if lo == "" && hi == "" {
-			// x[:] of an array (variadic packaging etc.)
+			// x[:] of an array: variadic packaging — render the elements
+			if a, ok := x.X.(*ssa.Alloc); ok {
+				if els, ok := arrayLiteralElems(a); ok {
+					parts := make([]string, len(els))
+					for i, e := range els {
+						if e == nil {
+							parts[i] = "_"
+						} else {
+							parts[i] = r.render(e, depth+1)
+						}
+					}
+					return "[" + strings.Join(parts, ", ") + "]"
+				}
+			}
 			return r.render(x.X, depth+1) + "[:]"
 		}
 		return r.render(x.X, depth+1) + "[" + lo + ":" + hi + "]"
@@ -582,8 +634,11 @@ func (r *Renderer) renderCall(c *ssa.CallCommon, depth int) string {
 	return "dyn:" + r.render(c.Value, depth+1) + "(" + r.args(c.Args, depth) + ")"
 }
 
-// substParams replaces @recv/@0,@1,... placeholders in a pattern by the actual
-// parameter names of fn (receiver excluded from numbering).
+// substParams replaces @0,@1,... placeholders in a pattern by the actual
+// parameter names of fn (receiver excluded from numbering), and translates the
+// parameter names the pattern was written with (the names on the tree the rule
+// tables were transcribed from, frozen in refParams) to the names the
+// function has now — so renaming a parameter does not trip a rule.
 func substParams(fn *ssa.Function, pat string) string {
 	params := fn.Params
 	if fn.Signature.Recv() != nil && len(params) > 0 {
@@ -593,5 +648,52 @@ func substParams(fn *ssa.Function, pat string) string {
 	for i := len(params) - 1; i >= 0; i-- {
 		pat = strings.ReplaceAll(pat, fmt.Sprintf("@%d", i), params[i].Name())
 	}
-	return pat
+	ref, ok := refParams[FuncKey(fn)]
+	if !ok || len(ref) != len(params) {
+		return pat
+	}
+	ren := map[string]string{}
+	for i, p := range params {
+		if ref[i] != p.Name() && ref[i] != "" && ref[i] != "_" {
+			ren[ref[i]] = p.Name()
+		}
+	}
+	if len(ren) == 0 {
+		return pat
+	}
+	return renameIdents(pat, ren)
+}
+
+// renameIdents replaces whole identifiers that are not field selectors
+// (preceded by '.') nor regexp escapes (preceded by a backslash).
+func renameIdents(pat string, ren map[string]string) string {
+	var sb strings.Builder
+	i := 0
+	isId := func(c byte) bool {
+		return c == '_' || (c >= 'a' && c <= 'z') || (c >= 'A' && c <= 'Z') || (c >= '0' && c <= '9')
+	}
+	for i < len(pat) {
+		c := pat[i]
+		if isId(c) && !(c >= '0' && c <= '9') {
+			j := i
+			for j < len(pat) && isId(pat[j]) {
+				j++
+			}
+			id := pat[i:j]
+			prev := byte(0)
+			if i > 0 {
+				prev = pat[i-1]
+			}
+			if to, ok := ren[id]; ok && prev != '.' && prev != '\\' && !(j < len(pat) && pat[j] == '/') {
+				sb.WriteString(to)
+			} else {
+				sb.WriteString(id)
+			}
+			i = j
+			continue
+		}
+		sb.WriteByte(c)
+		i++
+	}
+	return sb.String()
 }
